@@ -94,5 +94,9 @@ def run(ctx, tier):
     from .handlers import run_path_rules
     run_path_rules(ctx, __name__, 'recorded_amount_c05', ['G0', 'G1'], unroll=1)
     regex_rule(ctx)
+    from .rules_c19 import tokeniser_premise
+    tokeniser_premise(ctx)
+    from .rules_c08 import frame_premise
+    frame_premise(ctx)
     ctx.assume('matched equal-length cycles, E-only or firmware, not mixed (the property quantifier); travel moves that '
                'retract while moving are outside it')
